@@ -43,7 +43,43 @@ def plan(tier, seed):
         for part in range(2):
             tasks.append(dict(op="traj", solver=s, datafit=d, pen=p, storage=st, part=part, nparts=2, weight=4))
     tasks.append(dict(op="estimators", weight=5))
+    tasks += [dict(op="gram_family", part=k, weight=3) for k in range(2)]
     return tasks
+
+
+def run_gram_family(task, ctx):
+    """GramCD(use_acc=True) with L1(positive=True) on the correlated family of C03: feasible and finite at every budget 1..21
+    (an extrapolated point below zero must never be accepted)."""
+    from mc import comp as C
+    from mc.drivers import c03
+    n = 0
+    for comp in c03.gram_acc_comps(task, ctx.tier):
+        if not comp["penalty"].get("positive"):
+            continue
+        n += 1
+        for k in range(1, 22):
+            c = dict(comp, solver=dict(comp["solver"], kw=dict(comp["solver"]["kw"], max_iter=k)))
+            r = C.execute(c)
+            ctx.states += 1
+            ctx.transitions += 1
+            ctx.count("gram_family_states")
+            if r["status"] != "ok":
+                ctx.violation("solver:GramCD.feasibility", "exception", dict(op="gram_node", comp=c), r["exc"]["type"], "a solution",
+                              where=dict(solver="GramCD", family="correlated"))
+                break
+            w = r["w"]
+            ctx.obs(w, nontrivial=bool(np.any(w)))
+            bad = []
+            if not np.all(np.isfinite(w)) or not np.all(np.isfinite(r["obj_out"])):
+                bad.append(("non_finite_output", w.tolist()))
+            elif np.any(w < 0):
+                bad.append(("negative_coefficient", float(w.min())))
+            for kind, got in bad:
+                ctx.violation("solver:GramCD.feasibility", kind, dict(op="gram_node", comp=c), got, ">= 0 and finite",
+                              where=dict(solver="GramCD", family="correlated"))
+            if r["stop_crit"] <= 1e-14:
+                break
+    ctx.sample(dict(op="gram_family", columns=n))
 
 
 def neg_targets(kind, X):
@@ -134,6 +170,8 @@ def run(task, ctx):
     from mc import comp as C
     if task["op"] == "estimators":
         return run_estimators(task, ctx)
+    if task["op"] == "gram_family":
+        return run_gram_family(task, ctx)
     tier = ctx.tier
     s = task["solver"]
     ks, es = traj.grid(s, tier)
@@ -232,6 +270,9 @@ def replay(params):
         return dict(violated=bool(res["viol"]), kinds=[v[0] for v in res["viol"]], coef=fhex(res.get("coef")), status=res["status"])
     comp = params["comp"]
     r = C.execute(comp)
+    if params["op"] == "gram_node":
+        bad = r["status"] != "ok" or not np.all(np.isfinite(r["w"])) or bool(np.any(r["w"] < 0))
+        return dict(violated=bool(bad), kinds=["infeasible_or_non_finite"] if bad else [], **C.pack(r))
     k = comp["solver"]["kw"].get(R.OUTER[comp["solver"]["name"]], 1)
     v = node_violations(comp, comp, r, k)
     return dict(violated=bool(v), kinds=[x[0] for x in v], **C.pack(r))
